@@ -136,6 +136,10 @@ def save_performance_midi(
             f" or a list of  `PerformedPart` instances but is {type(performance_data)}"
         )
 
+    # plain Python integers (10**6 * ppq overflows 32-bit numpy integers)
+    ppq = int(ppq)
+    mpq = int(mpq)
+
     track_events = defaultdict(lambda: defaultdict(list))
     for performed_part in performed_parts:
 
